@@ -8,7 +8,7 @@ PACKET = Stage(
     parts={"quick": [("", 4)], "thorough": [("", 8)]},
     trace=("Trace_Packet.tla", "Trace_Packet.cfg"),
     nontrivial=lambda e: e.get("ev") not in ("NewW",),
-    behaviours={"quick": [("Gen_Packet.tla", "Gen_Packet.cfg", 300, 14)], "thorough": [("Gen_Packet.tla", "Gen_Packet.cfg", 6000, 14)]},
+    behaviours={"quick": [("Gen_Packet.tla", "Gen_Packet.cfg", 80, 14)], "thorough": [("Gen_Packet.tla", "Gen_Packet.cfg", 6000, 14)]},
 )
 
 FRAME = Stage(
@@ -49,7 +49,7 @@ SPLIT = Stage(
         "thorough": [("MC_Split.tla", "MC_Split_greedy_t.cfg", "pass"), ("MC_Split.tla", "MC_Split_packedNew_t.cfg", "pass"),
                      ("MC_Split.tla", "MC_Split_generic1.cfg", "pass"),
                      ("MC_Split.tla", "MC_Split_packedOld.cfg", "fail"), ("MC_Split.tla", "MC_Split_generic.cfg", "fail")]},
-    parts={"quick": [("shapes", 6), ("random", 1), ("parse", 1)], "thorough": [("shapes", 8), ("random", 8), ("parse", 2)]},
+    parts={"quick": [("shapes", 6), ("random", 1), ("parse", 1), ("limit", 4)], "thorough": [("shapes", 8), ("random", 8), ("parse", 2), ("limit", 4)]},
     trace=("Trace_Split.tla", "Trace_Split.cfg"),
     nontrivial=lambda e: e.get("ev") in ("Split", "Parse", "Sweep"),
 )
